@@ -80,9 +80,17 @@ impl<T> Mutex<T> {
         ensures *r == old(self).inner, final(self).inner == *final(r),
     { unimplemented!() }
 }
-pub struct SocketEvent { _p: u8 }
+/// the monitor event enum: only the variant the verified code constructs
+pub enum SocketEvent { Disconnected(PeerIdentity), Other }
 pub struct AcceptStopHandle { _p: u8 }
-pub mod mpsc { pub struct Sender<T> { pub _t: core::marker::PhantomData<T> } }
+pub mod mpsc {
+    pub struct Sender<T> { pub _t: core::marker::PhantomData<T> }
+    impl<T> Sender<T> {
+        // best-effort notification of the monitor: result ignored by the callers
+        #[verifier::external_body]
+        pub fn try_send(&mut self, v: T) -> Result<(), ()> { unimplemented!() }
+    }
+}
 
 /// crossbeam SegQueue as a FIFO sequence
 #[verifier::external_body]
